@@ -1,7 +1,11 @@
 """C16  A blocked transaction is always re-offered once its blocker resolves.
 
-Real code: MIR of src/tx_dependency.rs (next / add / remove / commit / key_tx) + PublishedCursor (cursor.rs).
-The per-transaction life cycle that scheduler.rs keeps in tx_states is a ghost (ph: 0 queued, 1 executing, 2 done);
+Real code: MIR of src/tx_dependency.rs (next / add / remove / commit / key_tx) + PublishedCursor (cursor.rs) + the REAL
+Scheduler::execution_task (scheduler.rs) on a real Scheduler's tx_states (status, incarnation, state mutex): the status
+dispatch of a cursor claim / direct hand-off, including the duplicate-claim release `remove(v, false)`.
+Ghosts: ph[i] (0 queued, 1 executing, 2 done) abstracts the status class (tied to the real status in the pre-state, kept in
+step by every role); the executors' finishing actions (what execute_task / validate do with the graph: add / remove / key_tx
+followed by the status publication under the state lock) are scripted roles over the real TxDependency calls;
 la[i] = blocker last installed by i's own executor; cd = number of commit() calls made.
 
 Method: ONE INDUCTIVE STEP WITH CONCURRENCY INSIDE.  The pre-state is an arbitrary (solver-chosen) state satisfying
@@ -23,6 +27,9 @@ from run import Spec
 import harness as hz
 from translate import Loc, VAgg, VRef
 from c15 import snapshot
+import sched_common as sc
+
+ST = {"Initial": 0, "Executing": 1, "Executed": 2, "Validating": 3, "Unconfirmed": 4, "Conflict": 5, "Finality": 6}
 
 
 def lock_rank_hook(N):
@@ -53,15 +60,33 @@ def lock_rank_hook(N):
 class K:
     """code generator shared by the harnesses"""
 
-    def __init__(self, H, N):
-        self.H, self.N = H, N
+    def __init__(self, H, N, S=None):
+        self.H, self.N, self.S = H, N, S
         self.uid = 0
+
+    def status(self, i):
+        return self.H.lv(self.S, "tx_states.e.data.status.d", [i])
+
+    def tlk(self, i):
+        return self.H.lv(self.S, "tx_states.e.locked", [i])
+
+    def tie_status(self, PH, executors=()):
+        """the real per-transaction status (scheduler.rs / model.rs) behind the ghost phase: any status of the phase's class"""
+        H, N = self.H, self.N
+        for i in range(N):
+            H.c(f"{self.status(i)} = nondet_uchar(); {self.tlk(i)} = 0; {H.lv(self.S, 'tx_states.e.data.incarnation', [i])} = nondet_usize();")
+            H.c(f"__CPROVER_assume({H.lv(self.S, 'tx_states.e.data.incarnation', [i])} < 1000);")
+            H.assume(f"{self.status(i)} <= 6 && ({PH}[{i}] == 0) == ({self.status(i)} == {ST['Initial']} || {self.status(i)} == {ST['Conflict']}) && "
+                     f"({PH}[{i}] == 1) == ({self.status(i)} == {ST['Executing']})")
 
     def freeze(self, D):
         H, N = self.H, self.N
         H.freeze(D, "num_txs", f"((usize){N})")
         H.freeze(D, "dependent_state.len", f"((usize){N})")
         H.freeze(D, "affect_txs.len", f"((usize){N})")
+        if self.S is not None and not getattr(self, "_frozen", False):
+            self._frozen = True
+            sc.freeze_sched(H, self.S, N)
 
     def acc(self, D, C):
         H = self.H
@@ -125,17 +150,30 @@ class K:
             H.cvar(f"bd{u}", "usize", shared=False)
             H.c(f"bd{u} = nondet_usize(); __CPROVER_assume(bd{u} < {t});")
             H.call("TxDependency::add", [H.ref(D), H.val(t), VAgg([H.val(f"bd{u}")], variant="Some")])
-            H.c(f"__CPROVER_atomic_begin(); {LA}[{t}] = bd{u}; {PH}[{t}] = 0; txl[{t}] = 0; __CPROVER_atomic_end();")
+            H.c(f"__CPROVER_atomic_begin(); {LA}[{t}] = bd{u}; {PH}[{t}] = 0; {self.status(t)} = {ST['Conflict']}; {self.tlk(t)} = 0; __CPROVER_atomic_end();")
+        elif outcome == "X":
+            # Scheduler::validate failing a done tx: status = Conflict; add(t, dependency filtered by the finality index (any predecessor
+            # or none: the finality index may have moved on since the filter)); the validator holds t's lock throughout
+            H.cvar(f"bd{u}", "usize", shared=False)
+            H.c(f"bd{u} = nondet_usize(); __CPROVER_assume(bd{u} < {t} || bd{u} == {N});")
+            H.c(f"if (bd{u} < {N}) {{")
+            H.call("TxDependency::add", [H.ref(D), H.val(t), VAgg([H.val(f"bd{u}")], variant="Some")])
+            H.c("} else {")
+            H.call("TxDependency::add", [H.ref(D), H.val(t), VAgg([], variant="None")])
+            H.c("}")
+            # ghost: waits recorded against t's finished incarnation were discharged by it; la[] only tracks waits on current incarnations
+            clr = " ".join(f"if ({LA}[{i}] == {t}) {LA}[{i}] = {N};" for i in range(N))
+            H.c(f"__CPROVER_atomic_begin(); {clr} {LA}[{t}] = bd{u}; {PH}[{t}] = 0; {self.status(t)} = {ST['Conflict']}; {self.tlk(t)} = 0; __CPROVER_atomic_end();")
         elif outcome == "U":
             H.call("TxDependency::add", [H.ref(D), H.val(t), VAgg([], variant="None")])
-            H.c(f"__CPROVER_atomic_begin(); {LA}[{t}] = {N}; {PH}[{t}] = 0; txl[{t}] = 0; __CPROVER_atomic_end();")
+            H.c(f"__CPROVER_atomic_begin(); {LA}[{t}] = {N}; {PH}[{t}] = 0; {self.status(t)} = {ST['Conflict']}; {self.tlk(t)} = 0; __CPROVER_atomic_end();")
         elif outcome == "K":
             H.call("TxDependency::key_tx", [H.ref(D), H.val(t), self.reader(C)])
-            H.c(f"__CPROVER_atomic_begin(); {LA}[{t}] = {N}; {PH}[{t}] = 0; txl[{t}] = 0; __CPROVER_atomic_end();")
+            H.c(f"__CPROVER_atomic_begin(); {LA}[{t}] = {N}; {PH}[{t}] = 0; {self.status(t)} = {ST['Conflict']}; {self.tlk(t)} = 0; __CPROVER_atomic_end();")
         else:
             nx = H.local(f"nx{u}", "Option<usize>")
             H.call("TxDependency::remove", [H.ref(D), H.val(t), H.val("1" if chain else "0", "_Bool")], nx)
-            H.c(f"__CPROVER_atomic_begin(); {PH}[{t}] = 2; txl[{t}] = 0; __CPROVER_atomic_end();")
+            H.c(f"__CPROVER_atomic_begin(); {PH}[{t}] = 2; {self.status(t)} = {ST['Executed']}; {self.tlk(t)} = 0; __CPROVER_atomic_end();")
             d, v = H.lv(nx, "d"), H.lv(nx, "Some.0")
             H.c(f"if ({d} == {H.variant(nx, '', 'Some')}) {{")
             H.assert_(f"{v} == {t} + 1 && {v} < {N}", "direct hand-off is the immediate successor")
@@ -146,15 +184,16 @@ class K:
             H.c("}")
 
     def dispatch(self, D, v, PH, u):
-        """Scheduler::execution_task(v): lock tx v's state (ghost txl), then by status: queued -> executing (the new
-        executor's own finish is a later step), executing -> nothing, done -> remove(v, false).  A tx whose executor is
-        not part of this step keeps its lock for the whole step: the claimer's step ends waiting for it."""
+        """the REAL Scheduler::execution_task(v) (scheduler.rs): locks tx v's state and dispatches on its status -- queued -> Executing
+        (the new executor's own finish is a later step), Executing -> nothing, anything else -> tx_dependency.remove(v, false).
+        A tx whose executor acts in this step holds its state lock until it has published its status: the claimer waits for it."""
         H, N = self.H, self.N
-        H.cvar(f"st{u}", "unsigned char", shared=False)
-        H.c(f"if ({v} < {N} && !({PH}[{v}] == 1 && !instep[{v}])) {{")
-        H.c(f"__CPROVER_atomic_begin(); __CPROVER_assume({v} < {N} && !txl[{v}]); st{u} = {PH}[{v}]; if (st{u} == 0) {{ {PH}[{v}] = 1; }} __CPROVER_atomic_end();")
-        H.c(f"if (st{u} == 2) {{")     # duplicate claim of an already executed blocker releases its dependents
-        H.call("TxDependency::remove", [H.ref(D), H.val(v), H.val("0", "_Bool")])
+        tk = H.local(f"tk{u}", "Option<Task>")
+        H.c(f"if ({v} < {N}) {{")
+        H.call("Scheduler::execution_task", [H.ref(self.S), H.val(v)], tk)
+        H.c(f"if ({H.lv(tk, 'd')} == {H.variant(tk, '', 'Some')}) {{")
+        H.assert_(f"{H.lv(tk, 'Some.0.d')} == {H.variant(tk, 'Some.0', 'Execution')} && {H.lv(tk, 'Some.0.Execution.0.txid')} == {v}", "the task handed out is the execution of the claimed tx")
+        H.c(f"__CPROVER_atomic_begin(); {PH}[{v}] = 1; __CPROVER_atomic_end();")
         H.c("}")
         H.c("}")
 
@@ -183,33 +222,38 @@ class K:
 
 
 def build_pair(N, roles, fix=None):
-    """roles: list of 'S','B','U','K' (finish an executing tx that way), 'N' (claim step), 'C' (commit)"""
+    """roles: list of 'S','B','U','K' (finish an executing tx that way), 'X' (validation failure of a done tx), 'N' (claim step), 'C' (commit)"""
     def b(tr):
         H = hz.Harness(tr, "c16_" + "".join(roles))
-        k = K(H, N)
-        D = H.shared("dep", "TxDependency")
+        S = H.shared("S", "Scheduler<DB>")
+        k = K(H, N, S)
+        D = H.nav(S, "tx_dependency")
         C = H.shared("cc", "PublishedCursor")
         k.freeze(D)
         H.cvar("phase", "unsigned char", dims=[N]); H.cvar("last_add", "usize", dims=[N]); H.cvar("commit_done", "usize")
-        H.cvar("txl", "_Bool", dims=[N])      # ghost of tx_states[i]'s mutex: held by the executor until status is updated
         k.havoc(D, C, "phase", "last_add", "commit_done")
         H.cvar("instep", "_Bool", dims=[N])   # ghost: tx i's executor acts in this step (others stay executing throughout)
         for i in range(N):
-            H.c(f"txl[{i}] = 0; instep[{i}] = 0;")
-        execs = [r for r in roles if r in "SBUK"]
+            H.c(f"instep[{i}] = 0;")
+        k.tie_status("phase")
+        execs = [r for r in roles if r in "SBUKX"]
         for n, r in enumerate(execs):
             H.param(f"T{n}")
-            H.c(f"T{n} = nondet_usize(); __CPROVER_assume(T{n} < {N} && phase[T{n}] == 1);" if not (fix and n in fix) else
-                f"T{n} = {fix[n]}; __CPROVER_assume(phase[T{n}] == 1);")
+            pre = f"phase[T{n}] == 1" if r != "X" else f"phase[T{n}] == 2 && T{n} >= commit_done && {k.status('T%d' % n)} != {ST['Finality']}"
+            H.c(f"T{n} = nondet_usize(); __CPROVER_assume(T{n} < {N} && {pre});" if not (fix and n in fix) else
+                f"T{n} = {fix[n]}; __CPROVER_assume({pre});")
             for m in range(n):
                 H.c(f"__CPROVER_assume(T{n} != T{m});")
-            H.c(f"instep[T{n}] = 1; txl[T{n}] = 1;")
+            # the executor / validator holds its transaction's state lock until it has published the new status
+            H.c(f"instep[T{n}] = 1; {k.tlk('T%d' % n)} = 1;")
         if "C" in roles:
             H.assume(f"commit_done < {N} && phase[commit_done < {N} ? commit_done : 0] == 2")
+            # the commit loop only commits below the finality index, i.e. a tx whose status is Finality (never validated again)
+            H.assume(f"{k.status('(commit_done < %d ? commit_done : 0)' % N)} == {ST['Finality']}")
         n = 0
         for ti, r in enumerate(roles):
             t = H.thread(f"t{ti}{r}"); H.enter(t)
-            if r in "SBUK":
+            if r in "SBUKX":
                 k.finish(D, C, f"T{n}", r, "phase", "last_add")
                 n += 1
             elif r == "N":
@@ -235,16 +279,16 @@ def build_pair(N, roles, fix=None):
 def build_completion(N):
     def b(tr):
         H = hz.Harness(tr, "c16_completion")
-        k = K(H, N)
-        D = H.local("dep", "TxDependency"); C = H.local("cc", "PublishedCursor")
+        S = H.local("S", "Scheduler<DB>")
+        k = K(H, N, S)
+        D = H.nav(S, "tx_dependency"); C = H.local("cc", "PublishedCursor")
         k.freeze(D)
         H.cvar("ph", "unsigned char", dims=[N], shared=False); H.cvar("la", "usize", dims=[N], shared=False)
-        H.cvar("cd", "usize", shared=False); H.cvar("txl", "_Bool", dims=[N], shared=False)
+        H.cvar("cd", "usize", shared=False)
         k.havoc(D, C, "ph", "la", "cd")
         for i in range(N):
-            H.c(f"txl[{i}] = 0;")
-        for i in range(N):
             H.assume(f"ph[{i}] != 1")
+        k.tie_status("ph")
         a = k.acc(D, C)
         H.cvar("dk", "int", shared=False); H.cvar("TT", "usize", shared=False)
         H.cvar("instep", "_Bool", dims=[N], shared=False)
@@ -271,16 +315,20 @@ def build_completion(N):
 
 def cfg(N):
     hook, unhook = lock_rank_hook(N)
-    return {"cap": N, "set_iter_cap": N, "lock_hook": hook, "unlock_hook": unhook,
-            "loops": {"TxDependency::remove": {"*": (N + 1, "assert")}}}
+    c = sc.mv_cfg(N, L=1)
+    c.update({"cap": N, "set_iter_cap": N, "lock_hook": hook, "unlock_hook": unhook,
+              "loops": {"TxDependency::remove": {"*": (N + 1, "assert")}}})
+    return c
 
 
-SINGLES = ["S", "B", "U", "K", "N", "C"]
-QUICK_PAIRS = ["SC", "BB", "BU", "BK", "BC", "UK", "UN", "UC", "KN", "KC", "NC", "UU", "KK"]     # each < ~2.5 min
-SLOW_PAIRS = ["SB", "SU", "SK", "BN"]                # 4-12 min each
+SINGLES = ["S", "B", "U", "K", "X", "N", "C"]
+QUICK_PAIRS = ["SC", "BB", "BU", "BK", "BC", "UK", "UN", "UC", "KN", "KC", "NC", "UU", "KK", "XC", "XU", "XK"]     # each < ~4 min
+SLOW_PAIRS = ["SB", "SU", "SK", "BN", "XN", "XB", "XX"]        # 4-18 min each
 SPLIT_PAIRS = ["SN", "SS", "NN"]                     # only decided when case-split on the executors' transaction ids
-TRIPLES = ["BSC", "BBS", "KCN", "BNC", "SSB", "BKC", "UNC", "BBN"]
-ROLE_DOC = "(S finish ok+handoff, B blocked by predecessor, U retry, K error barrier, N cursor claim + status dispatch, C commit)"
+TRIPLES = ["BKC", "UNC", "KCN", "BNC", "BSC"]        # 10-55 min each under load
+HARD = ["XS", "BBS", "SSB", "BBN"]                   # attempted, no verdict within an hour: tier `experimental` only (not registered)
+ROLE_DOC = ("(S finish ok+handoff, B blocked by predecessor, U retry, K error barrier, X validation failure of a done tx, "
+            "N cursor claim + real execution_task dispatch, C commit)")
 
 
 def specs(tier):
@@ -299,20 +347,24 @@ def specs(tier):
         for p in SLOW_PAIRS:
             out.append(Spec(f"step_{p}_n3", build_pair(3, list(p)), cfg=cfg(3), unwind=6, timeout=3600,
                             desc=f"roles {' || '.join(p)} " + ROLE_DOC, bounds={"n": 3, "threads": 2, "memory_model": "SC"}))
-        for p in SPLIT_PAIRS:
-            for t0 in range(3):
-                if p[0] == "N":
-                    continue
-                out.append(Spec(f"step_{p}_T{t0}_n3", build_pair(3, list(p), fix={0: t0}), cfg=cfg(3), unwind=6, timeout=3600,
-                                desc=f"roles {' || '.join(p)}, first executor's transaction fixed to {t0} (case split)",
-                                bounds={"n": 3, "threads": 2, "memory_model": "SC"}))
-        out.append(Spec("step_NN_n3", build_pair(3, list("NN")), cfg=cfg(3), unwind=6, timeout=3600,
-                        desc="two concurrent cursor claims", bounds={"n": 3, "threads": 2}))
         for p in TRIPLES:
-            out.append(Spec(f"step_{p}_n3", build_pair(3, list(p)), cfg=cfg(3), unwind=6, timeout=3600,
+            out.append(Spec(f"step_{p}_n3", build_pair(3, list(p)), cfg=cfg(3), unwind=6, timeout=10800,
                             desc=f"three concurrent roles {' || '.join(p)} from an arbitrary INV state",
                             bounds={"n": 3, "threads": 3}))
         for p in ["B", "S", "KC", "BC"]:
             out.append(Spec(f"step_{p}_n4", build_pair(4, list(p)), cfg=cfg(4), unwind=7, timeout=3600,
                             desc=f"roles {' || '.join(p)} at n=4", bounds={"n": 4, "threads": len(p)}))
+    if tier == "experimental":
+        out = []
+        for p in SPLIT_PAIRS:
+            if p[0] == "N":
+                out.append(Spec(f"step_{p}_n3", build_pair(3, list(p)), cfg=cfg(3), unwind=6, timeout=3600, desc="two concurrent cursor claims", bounds={"n": 3, "threads": 2}))
+                continue
+            out.append(Spec(f"step_{p}_n3", build_pair(3, list(p)), cfg=cfg(3), unwind=6, timeout=3600, desc=f"roles {' || '.join(p)}", bounds={"n": 3, "threads": 2}))
+            for t0 in range(3):
+                out.append(Spec(f"step_{p}_T{t0}_n3", build_pair(3, list(p), fix={0: t0}), cfg=cfg(3), unwind=6, timeout=3600,
+                                desc=f"roles {' || '.join(p)}, first executor's transaction fixed to {t0} (case split)",
+                                bounds={"n": 3, "threads": 2, "memory_model": "SC"}))
+        for p in HARD:
+            out.append(Spec(f"step_{p}_n3", build_pair(3, list(p)), cfg=cfg(3), unwind=6, timeout=3600, desc=f"roles {' || '.join(p)}", bounds={"n": 3, "threads": len(p)}))
     return out
